@@ -23,6 +23,7 @@ import MajoranaVerif.Proofs.Mvp3Spec
 import MajoranaVerif.Props.C01
 import MajoranaVerif.Proofs.MsiCoherence
 import MajoranaVerif.Proofs.Mvp60LdRun
+import MajoranaVerif.Proofs.Mvp60LdOk
 import MajoranaVerif.Proofs.Mvp60LdWitness
 open GoInt Model Model.Seq Model.Mmu Model.Mvp3 LineCache Proofs.Mmu Proofs.Mvp3 Proofs.Refine
 
@@ -320,9 +321,9 @@ end Props.C05
 
 /-! ## MVP-6.0 (package R60d): memory reads — the L3 cache is transparent, for every number of execute and write units
 
-The class `Model.Mvp60.StraightLineLdRet`: straight-line programs with `lb`/`lh`/`lw` (no store, no branch or jump, no
-`div`/`rem`) that may end with a `ret` (a `ret` is allowed as the LAST instruction of the program text only);
-`Model.Mvp60.StraightLineLd` is its sub-class without `ret`.  With loads the machine completes instructions OUT OF ORDER: a
+The class `Model.Mvp60.StraightLineLdR`: straight-line programs with `lb`/`lh`/`lw` (no store, no branch or jump, no
+`div`/`rem`) and `ret` anywhere (the run ends at the first one); `Model.Mvp60.StraightLineLdRet` is its sub-class with a `ret`
+as the LAST instruction of the program text only, `Model.Mvp60.StraightLineLd` is its sub-class without `ret`.  With loads the machine completes instructions OUT OF ORDER: a
 load waits in its execute unit (50 ticks on an L3 hit, 309 on a miss, longer when another unit is already fetching its line)
 while the other units execute younger instructions; the write bus then carries results in completion order.  What keeps this
 correct is in-order ISSUE with the three scoreboard checks of `isDataHazard3` (`Proofs.Mvp60Ld.BackO`): an instruction is
@@ -335,18 +336,21 @@ is written back unchanged): a lookup returns the flat-memory bytes (`Proofs.Mvp6
 leaves the flat memory.  A `ret` is issued like any instruction, may be executed while older loads still wait, and puts the
 machine into its two drain loops (busy execute units, then write units): at their end everything older has been written.
 `div`/`rem` are excluded because their error value would have to be ordered against the results around it; stores and
-branches are the classes of KF-ooo-mem / KF-ooo-flush-load and are not claimed; a `ret` FOLLOWED by further instructions is
-excluded because the machine WAS wrong there with two and more units (R60-defect-2, fixed in /repo meanwhile:
-`mvp60_ret_overtaken_fixed` below; the proof of the general case is not done). -/
+branches are the classes of KF-ooo-mem / KF-ooo-flush-load and are not claimed.  With a `ret` FOLLOWED by further instructions
+the machine WAS wrong on two and more units (R60-defect-2: the decode unit went on decoding in the cycle of the `ret`); since
+/repo's fix the decode unit stops at a `ret`, and `mvp60_readonly_retany_correct` covers `ret` anywhere
+(`mvp60_ret_overtaken_fixed` below is the former counterexample). -/
 namespace Props.C05
 
-/-- **C05 for MVP-6.0 on straight-line programs with memory reads and a final `ret` (safety), every number `K` of execute
-and write units.**  Every parsed program of `Model.Mvp60.StraightLineLdRet`, every initial state related to a specification
-machine (memory not larger than 2^31 − 64 bytes) with fresh scoreboards, every fuel and tick budget: if the run of the
-MVP-6.0 model ends (not with a Go panic) and the specification run ends within its fuel, they end the same way (`ret`, or
-past the last instruction), the final registers of the model are the specification's, and the memory — after the final
-flush of L3 — is the specification's: untouched. -/
-theorem mvp60_readonly_ret_correct (app : App) (hw : WfApp app) (hcls : Model.Mvp60.StraightLineLdRet app = true)
+/-- **C05 for MVP-6.0 on straight-line programs with memory reads and `ret` (safety), every number `K` of execute and write
+units.**  Every parsed program of `Model.Mvp60.StraightLineLdR` (`lb`/`lh`/`lw` allowed, no store, no branch or jump, no
+`div`/`rem`; `ret` ANYWHERE — the run ends at the first one), every initial state related to a specification machine (memory
+not larger than 2^31 − 64 bytes) with fresh scoreboards, every fuel and tick budget: if the run of the MVP-6.0 model ends (not
+with a Go panic) and the specification run ends within its fuel, they end the same way (`ret`, or past the last instruction),
+the final registers of the model are the specification's, and the memory — after the final flush of L3 — is the
+specification's: untouched.  True since /repo's fix of R60-defect-2 (the decode unit stops at a `ret`): the proof uses that
+only the youngest decoded instruction can be a `ret` (`Proofs.Mvp60Ld.RetInv`, `decodeLoop_ret`). -/
+theorem mvp60_readonly_retany_correct (app : App) (hw : WfApp app) (hcls : Model.Mvp60.StraightLineLdR app = true)
     (ctx : Model.Context) (m : Spec.Machine) (hR : Rel ctx m) (hmsz : m.mem.size + 64 ≤ 2 ^ 31)
     (hpw : ∀ r, GoMap.get1 ctx.PendingWriteRegisters r = 0) (hpr : ∀ r, GoMap.get1 ctx.PendingReadRegisters r = 0)
     (K fuel ticks : Nat) (hk : Halt) (hh : (Model.Mvp60.run app ctx K K ticks).halt = some hk) (hnp : ∀ w, hk ≠ .panic w) :
@@ -396,6 +400,34 @@ theorem mvp60_readonly_ret_correct (app : App) (hw : WfApp app) (hcls : Model.Mv
     refine ⟨rfl, fun r => ?_, ?_⟩
     · rw [hregs r, hfin]; exact h1.2.1.regs r
     · rw [hmem, ← h1.2.1.mem, ← hfin, hmemN]
+
+/-- **the same without the hypothesis "not a Go panic"**: on the class no run ends with a Go panic when the specification run
+is well-formed (`Proofs.Mvp60Ld.mvp60_ld_never_panics`, `Props.C07.mvp60_readonly_never_panics`), and when it is not
+well-formed nothing is claimed — so EVERY way the model run ends agrees with the specification run. -/
+theorem mvp60_readonly_retany_safe (app : App) (hw : WfApp app) (hcls : Model.Mvp60.StraightLineLdR app = true)
+    (ctx : Model.Context) (m : Spec.Machine) (hR : Rel ctx m) (hmsz : m.mem.size + 64 ≤ 2 ^ 31)
+    (hpw : ∀ r, GoMap.get1 ctx.PendingWriteRegisters r = 0) (hpr : ∀ r, GoMap.get1 ctx.PendingReadRegisters r = 0)
+    (K fuel ticks : Nat) (hk : Halt) (hh : (Model.Mvp60.run app ctx K K ticks).halt = some hk) :
+    Props.C01.Agree4 (Spec.run (specProg app) m fuel) hk (Model.Mvp60.run app ctx K K ticks).final.ctx := by
+  cases hstop : (Spec.run (specProg app) m fuel).stop with
+  | notWf w => unfold Props.C01.Agree4; rw [hstop]; trivial
+  | _ =>
+    refine mvp60_readonly_retany_correct app hw hcls ctx m hR hmsz hpw hpr K fuel ticks hk hh ?_
+    intro w hc
+    subst hc
+    exact Proofs.Mvp60Ld.mvp60_ld_never_panics app ctx
+      (Proofs.Mvp60Ld.progLd_of_spec app hw hcls ctx m hR hmsz fuel (by intro why hc; rw [hstop] at hc; cases hc)).1 K ticks hpw hpr w hh
+
+/-- **C05 for MVP-6.0 on straight-line programs with memory reads and a final `ret`** (`Model.Mvp60.StraightLineLdRet`: a `ret`
+as the last instruction only — the class that was true also before the fix of R60-defect-2): a case of
+`mvp60_readonly_retany_correct`. -/
+theorem mvp60_readonly_ret_correct (app : App) (hw : WfApp app) (hcls : Model.Mvp60.StraightLineLdRet app = true)
+    (ctx : Model.Context) (m : Spec.Machine) (hR : Rel ctx m) (hmsz : m.mem.size + 64 ≤ 2 ^ 31)
+    (hpw : ∀ r, GoMap.get1 ctx.PendingWriteRegisters r = 0) (hpr : ∀ r, GoMap.get1 ctx.PendingReadRegisters r = 0)
+    (K fuel ticks : Nat) (hk : Halt) (hh : (Model.Mvp60.run app ctx K K ticks).halt = some hk) (hnp : ∀ w, hk ≠ .panic w) :
+    Props.C01.Agree4 (Spec.run (specProg app) m fuel) hk (Model.Mvp60.run app ctx K K ticks).final.ctx :=
+  mvp60_readonly_retany_correct app hw
+    (by simp only [Model.Mvp60.StraightLineLdRet, Bool.and_eq_true] at hcls; exact hcls.2) ctx m hR hmsz hpw hpr K fuel ticks hk hh hnp
 
 /-- the class without `ret` is a sub-class -/
 theorem mvp60_ld_sub (app : App) (h : Model.Mvp60.StraightLineLd app = true) : Model.Mvp60.StraightLineLdRet app = true := by
@@ -470,7 +502,9 @@ example : WfApp Proofs.Mvp60LdWitness.ldrApp ∧ Model.Mvp60.StraightLineLdRet P
 
 /-- **R60-defect-2 is fixed: nothing behind a `ret` is executed.**  `Proofs.Mvp60LdWitness.retApp` = `addi t2,t2,0;
 lw t0,0(zero); lw t1,64(zero); lw t3,128(zero); lw t4,192(zero); ret; addi a0,zero,1` on 256 bytes: every instruction is of the
-class but the `ret` is not the last one (so `mvp60_readonly_ret_correct` does not speak about it); the unpipelined machine and
+class `Model.Mvp60.StraightLineLdR` but the `ret` is not the last one (so it is a case of `mvp60_readonly_retany_correct` —
+this theorem is its non-vacuity witness: well-formed, in the class, specification run ends `ret` — and not of
+`mvp60_readonly_ret_correct`); the unpipelined machine and
 the MVP-6.0 model with 1, 2 and 4 execute/write units return with `a0 = 0` (registers `t0 t1 a0`).  Before /repo's fix of
 `decodeUnit.cycle` (it went on decoding in the cycle in which it saw the `ret`; `Model.Mvp60.decodeLoop` mirrors the fix) the
 machines mvp6-0 … mvp7-1 and this model returned with `a0 = 1` on two and on four units: the `addi` was decoded in the same cycle
@@ -478,6 +512,9 @@ as the `ret`, issued one cycle after it, both waited on the execute bus while ev
 one cycle, the second one executed the `addi`, and the drain loops after the `ret` wrote its result
 (/verif/.work/reports/R60-defect-2.md). -/
 theorem mvp60_ret_overtaken_fixed :
+    WfApp Proofs.Mvp60LdWitness.retApp ∧ Model.Mvp60.StraightLineLdR Proofs.Mvp60LdWitness.retApp = true ∧
+    (Spec.run (specProg Proofs.Mvp60LdWitness.retApp)
+      { regs := Array.replicate 32 0#32, mem := ((List.range 256).map (fun i => BitVec.ofNat 8 (i + 1))).toArray } 50).stop = .ret ∧
     Proofs.Mvp60LdWitness.retApp.instrs.all Model.Mvp60.ldrInstr = true ∧
     Model.Mvp60.StraightLineLdRet Proofs.Mvp60LdWitness.retApp = false ∧
     Proofs.Mvp60LdWitness.obsM (runMvp1 Proofs.Mvp60LdWitness.retApp ⟨Proofs.Mvp60LdWitness.ctxM, 0⟩ 20).halt
@@ -492,7 +529,8 @@ theorem mvp60_ret_overtaken_fixed :
     Proofs.Mvp60LdWitness.obsM (Model.Mvp60.run Proofs.Mvp60LdWitness.retApp Proofs.Mvp60LdWitness.ctxM 4 4 3000).halt
         (Model.Mvp60.run Proofs.Mvp60LdWitness.retApp Proofs.Mvp60LdWitness.ctxM 4 4 3000).final.ctx =
       (some .ret, [0x04030201#32, 0x44434241#32, 0#32]) :=
-  ⟨Proofs.Mvp60LdWitness.ret_class.1, Proofs.Mvp60LdWitness.ret_class.2, Proofs.Mvp60LdWitness.ret_seq, Proofs.Mvp60LdWitness.ret_p1,
+  ⟨Proofs.Mvp60LdWitness.ret_wf, Proofs.Mvp60LdWitness.ret_classR, Proofs.Mvp60LdWitness.ret_spec,
+   Proofs.Mvp60LdWitness.ret_class.1, Proofs.Mvp60LdWitness.ret_class.2, Proofs.Mvp60LdWitness.ret_seq, Proofs.Mvp60LdWitness.ret_p1,
    Proofs.Mvp60LdWitness.ret_p2, Proofs.Mvp60LdWitness.ret_p4⟩
 
 end Props.C05
